@@ -26,7 +26,7 @@ import (
 	"verif/harness/internal/refmodel"
 )
 
-var sigma = []string{"a", "b", "*", "/", ".", "\n", "+", "(", "[", "\\", "$", "^", "é"}
+var sigma = []string{"a", "b", "*", "/", ".", "\n", "+", "(", "[", "\\", "$", "^", "é", "!"}
 
 func allStrings(alpha []string, maxLen int) []string {
 	out := []string{""}
@@ -255,8 +255,8 @@ func TestC07(t *testing.T) {
 
 	// ---- rule sets ----
 	acts := []string{"get", "info", "put", "activate", "delete", "ge", "gett", "", "*", "GET"}
-	rpats := []string{"a", "b", "a/b", "*", "a/*", "*b", "a*b", "**", "", "a.b", "a\nb", "x", "dev/*", "*/key", "é", "équipe/*", "秘密/*", "*/🔑", "é*é", "日本", "a\\E*", " a", "a\n", "*\n", " ", "\ta/*\t", "a "}
-	rnames := []string{"a", "b", "a/b", "ab", "a/x/b", "", "a.b", "axb", "a\nb", "dev/key", "x", "dev/", "_internal/x", "é", "équipe/", "équipe/x", "秘密/db", "秘密/", "k/🔑", "éé", "日本", "a\\Eb", " a", "a\n", "x\n", " ", "\ta/b\t", "a ", "a/b"}
+	rpats := []string{"a", "b", "a/b", "*", "a/*", "*b", "a*b", "**", "", "a.b", "a\nb", "x", "dev/*", "*/key", "é", "équipe/*", "秘密/*", "*/🔑", "é*é", "日本", "a\\E*", " a", "a\n", "*\n", " ", "\ta/*\t", "a ", "!x", "!*", "!a/*", "!", "!dev/*", "#a", "~a/*", "-*", "a/b c", "a/* b/*"}
+	rnames := []string{"a", "b", "a/b", "ab", "a/x/b", "", "a.b", "axb", "a\nb", "dev/key", "x", "dev/", "_internal/x", "é", "équipe/", "équipe/x", "秘密/db", "秘密/", "k/🔑", "éé", "日本", "a\\Eb", " a", "a\n", "x\n", " ", "\ta/b\t", "a ", "a/b", "!x", "!", "!a/b", "!dev/key", "#a", "~a/b", "-x", "a/b c", "a/x b/y"}
 	genRules := func(rng *rand.Rand) []refmodel.Rule {
 		n := rng.IntN(5)
 		rules := make([]refmodel.Rule, 0, n)
